@@ -1,6 +1,6 @@
 (* C11/Corr.v — correspondence runner: model output vs observed output, spec on the observed output *)
 From Coq Require Import String List Bool ZArith.
-From Verif Require Import Base.Str Base.Run C11.Model C11.Dec C11.Spec.
+From Verif Require Import Base.Str Base.Run C11.Model C11.Dec C11.Spec C11.Tokens.
 Import ListNotations.
 Open Scope string_scope.
 Open Scope list_scope.
@@ -12,6 +12,9 @@ Definition p11 := "urn:oasis:names:tc:SAML:1.1:protocol".
 Definition p10 := "urn:oasis:names:tc:SAML:1.0:protocol".
 Definition sv := Svc.
 Definition rl := Role.
+(* a role descriptor whose protocolSupportEnumeration is given as the attribute VALUE (Tokens.rp splits it at blanks,
+   as do_entity_descriptor does) *)
+Definition rp := Tokens.rp.
 Definition ky := Key.
 Definition mkent := Ent.
 Definition mksp k key cert cv node period scv viaimp : srcspec :=
@@ -249,8 +252,12 @@ Definition model_out (c : case) : list answer := run cur (init (c_t0 c)) (histor
 Definition model_out_zone_v0 (c : case) : list answer := run (zone_v0 (c_gaps c)) (init (c_t0 c)) (history c).
 
 Definition agrees (c : case) : bool := answers_eqb (model_out c) (observed c).
-(* the property, evaluated on what the IMPLEMENTATION answered *)
-Definition verdict (c : case) : nat := let w := rinit (c_t0 c) in check w [r_srv w] (history c) (observed c).
+(* the property, evaluated on what the IMPLEMENTATION answered.  The reference reads every protocolSupportEnumeration
+   as the list of its ITEMS (Tokens.canon_hist: separated by any XML white space) *)
+Definition history_x (c : case) : list op := canon_hist (history c).
+Definition verdict (c : case) : nat := let w := rinit (c_t0 c) in check w [r_srv w] (history_x c) (observed c).
+(* the same with the enumerations split at blanks only (the code's reading) *)
+Definition verdict_sp (c : case) : nat := let w := rinit (c_t0 c) in check w [r_srv w] (history c) (observed c).
 Definition holds (c : case) : bool := Nat.eqb (verdict c) 0.
 (* finding classes (first failing position of the history):
      1 service() fell through to a later source although an earlier one has the entity
@@ -263,9 +270,14 @@ Definition holds (c : case) : bool := Nat.eqb (verdict c) 0.
      8 (repaired by 7137d601) the process zone has a daylight-saving gap and the implementation answered exactly what the
        model of the code BEFORE the commit answers with that gap (an MDQ entry served past its freshness period
        because add_duration went through the local calendar), which fails the zone-free reference.
-   All eight are repaired in /repo (status "fixed"): they are still recognised, so that a regression is
+     9 (open) an enumeration whose items are separated by a tab / line feed / carriage return (character reference):
+       the implementation did what the reference does when it splits at blanks only (a SAML 2.0 role is not served;
+       the converse cannot happen: a piece that equals the name holds none of these characters and is an item), which
+       fails the reference on items.
+   Classes 1-8 are repaired in /repo (status "fixed"): they are still recognised, so that a regression is
    reported with its class and the failing input. *)
 Definition cls (c : case) : nat :=
+  if negb (clean_hist (history c)) && Nat.eqb (verdict_sp c) 0 then 9 else
   match c_gaps c with
   | _ :: _ => if answers_eqb (model_out_zone_v0 c) (observed c) then 8
               else let v := verdict c in if Nat.leb v 7 then v else 0
@@ -329,5 +341,5 @@ Fixpoint spec_diff (i : nat) (w : rworld) (h : list op) (obs : list answer) : op
       end
   end.
 (* (position, query, implementation's answer, reference answer) *)
-Definition where_spec (c : case) := spec_diff 0 (rinit (c_t0 c)) (history c) (observed c).
+Definition where_spec (c : case) := spec_diff 0 (rinit (c_t0 c)) (history_x c) (observed c).
 Definition where_ (c : case) := (verdict c, match where_spec c with Some (i, q, _, _) => Some (i, q) | None => None end, where_model c).
